@@ -153,6 +153,11 @@ pub struct Report {
     pub wall_s: f64,
 }
 
+/// detection-only runs (the seed matrix) skip shrinking and minimisation
+fn no_shrink() -> bool {
+    std::env::var("MQV_NO_SHRINK").map(|v| v == "1").unwrap_or(false)
+}
+
 pub const SYSTEMATIC_WINDOW: u32 = 12;
 pub const SYSTEMATIC_MAX_DECISIONS: u64 = 600;
 
@@ -493,7 +498,7 @@ pub fn run_prop(
                     }
                     if let Some((c, _)) = failing {
                         acc.failed = true;
-                        let c = minimize(&mut acc, part, c);
+                        let c = if no_shrink() { c } else { minimize(&mut acc, part, c) };
                         let (unknown, ex) = acc.eval(part, &c, false);
                         acc.rep.violations.push(ViolationReport {
                             part: part.name.to_string(),
@@ -513,7 +518,7 @@ pub fn run_prop(
                 let cfg = Config {
                     cases: n,
                     failure_persistence: None,
-                    max_shrink_iters: if costly { 30 } else { 3000 },
+                    max_shrink_iters: if no_shrink() { 0 } else if costly { 30 } else { 3000 },
                     max_global_rejects: 10_000,
                     ..Config::default()
                 };
@@ -538,7 +543,7 @@ pub fn run_prop(
                     Err(TestError::Fail(_, sc)) => {
                         // greedy post-pass, then re-run the minimal case to get its findings and trace
                         acc.failed = true;
-                        let sc = if costly { sc } else { minimize(&mut acc, part, sc) };
+                        let sc = if costly || no_shrink() { sc } else { minimize(&mut acc, part, sc) };
                         let (unknown, ex) = acc.eval(part, &sc, false);
                         acc.rep.violations.push(ViolationReport {
                             part: part.name.to_string(),
@@ -578,4 +583,225 @@ pub fn replay(def: &PropDef, v: &ViolationReport, known: &KnownFile) -> (Vec<Fin
         failed: false,
     };
     acc.eval(part, &v.scenario, false)
+}
+
+
+/// Coverage-guided entry point (libFuzzer).  The fuzzer's inputs are serialised scenarios
+/// (`{"part": name, "scenario": {...}}`), mutated structurally by `mutate_scenario`; this function
+/// executes one and applies the oracle of the named part.  Known findings are matched without
+/// the property restriction, because mutated scenarios may leave the exclusions that the
+/// generators of a profile build in.
+pub fn fuzz_one(def: &PropDef, part_name: &str, sc: &Scenario, known: &KnownFile) -> Option<ViolationReport> {
+    let part = def.parts.iter().find(|p| p.name == part_name)?;
+    if !fuzz_sane(sc) {
+        return None;
+    }
+    let widened = KnownFile {
+        findings: known
+            .findings
+            .iter()
+            .map(|k| {
+                let mut k = k.clone();
+                if !k.properties.iter().any(|p| p == def.id) {
+                    k.properties.push(def.id.to_string());
+                }
+                k
+            })
+            .collect(),
+    };
+    let mut acc = Acc {
+        rep: Report::default(),
+        seen: BTreeSet::new(),
+        known: &widened,
+        prop: def.id,
+        failed: false,
+    };
+    let (unknown, ex) = acc.eval(part, sc, false);
+    if unknown.is_empty() {
+        return None;
+    }
+    Some(ViolationReport {
+        part: part.name.to_string(),
+        findings: unknown,
+        trace_rle: rle(&ex.outcome.trace),
+        verdict: format!("{:?}", ex.outcome.verdict),
+        scenario: sc.clone(),
+        shrunk: false,
+    })
+}
+
+/// size limits for fuzzer-made scenarios
+pub fn fuzz_sane(sc: &Scenario) -> bool {
+    use crate::ops::Op;
+    if sc.progs.is_empty() || sc.progs.len() > crate::rt::MAX_THREADS - 1 || sc.sched.bytes.len() > 8192 {
+        return false;
+    }
+    if sc.opts.max_steps > 400_000 || sc.opts.mem {
+        return false;
+    }
+    for p in &sc.progs {
+        if p.ops.len() > 120 {
+            return false;
+        }
+        for o in &p.ops {
+            if matches!(o, Op::Repeat { .. } | Op::MemSample) {
+                return false;
+            }
+        }
+    }
+    true
+}
+
+struct XorShift(u64);
+
+impl XorShift {
+    fn next(&mut self) -> u64 {
+        let mut x = self.0;
+        x ^= x << 13;
+        x ^= x >> 7;
+        x ^= x << 17;
+        self.0 = x;
+        x
+    }
+    fn below(&mut self, n: usize) -> usize {
+        (self.next() % n.max(1) as u64) as usize
+    }
+}
+
+fn random_op(r: &mut XorShift, sender_side: bool) -> crate::ops::Op {
+    use crate::ops::{DrainHow, Op};
+    let s = (r.next() & 0xffff) as u16;
+    if sender_side {
+        match r.below(8) {
+            0 | 1 => Op::TrySend { tx: s },
+            2 | 3 => Op::Send { tx: s, max: (r.below(4)) as u8 },
+            4 => Op::StartSend { tx: s, by_ref: r.below(2) == 0 },
+            5 => Op::WithCloneTx { tx: s, sends: r.below(3) as u8 },
+            6 => Op::SinkSend { tx: s },
+            _ => Op::Yield,
+        }
+    } else {
+        match r.below(16) {
+            0 | 1 => Op::TryRecv { rx: s },
+            2 => Op::RecvN { rx: s, k: 1, view: false },
+            3 => Op::TryView { rx: s },
+            4 => Op::RecvN { rx: s, k: 1, view: true },
+            5 => Op::TryIter { rx: s, max: r.below(3) as u8, variant: r.below(2) as u8 },
+            6 => Op::Poll { rx: s, by_ref: true },
+            7 => Op::StreamNext { rx: s },
+            8 => Op::WithCloneRx { rx: s, unsub: r.below(2) == 0 },
+            9 => Op::IntoSingle { rx: s },
+            10 => Op::IntoMulti { rx: s },
+            11 => Op::Transform { rx: s },
+            12 => Op::Drain {
+                rx: s,
+                how: [DrainHow::Try, DrainHow::Blocking, DrainHow::View, DrainHow::Poll, DrainHow::Iter][r.below(5)],
+                extra: r.below(3) as u8,
+            },
+            13 => Op::CloneRx { rx: s },
+            14 => Op::DropRx { rx: s },
+            _ => Op::Yield,
+        }
+    }
+}
+
+/// One structural mutation of a scenario (custom mutator of the libFuzzer target).
+pub fn mutate_scenario(sc: &mut Scenario, seed: u64) {
+    use crate::handles::WaitKind;
+    use crate::ops::Op;
+    use crate::rt::Policy;
+    let mut r = XorShift(seed | 1);
+    for _ in 0..(1 + r.below(3)) {
+        match r.below(12) {
+            0..=4 => {
+                // operation-level mutation in a program other than the controller's spawn skeleton
+                let p = r.below(sc.progs.len());
+                let prog = &mut sc.progs[p];
+                let sender_side = prog.ops.iter().any(|o| {
+                    matches!(o, Op::TrySend { .. } | Op::Send { .. } | Op::SinkSend { .. } | Op::StartSend { .. })
+                }) && !prog.ops.iter().any(|o| matches!(o, Op::TryRecv { .. } | Op::Drain { .. }));
+                let movable: Vec<usize> = prog
+                    .ops
+                    .iter()
+                    .enumerate()
+                    .filter(|(_, o)| !matches!(o, Op::Spawn { .. } | Op::JoinAll | Op::Join { .. } | Op::ProbeQuiescent))
+                    .map(|(i, _)| i)
+                    .collect();
+                match r.below(4) {
+                    0 if !movable.is_empty() => {
+                        let i = movable[r.below(movable.len())];
+                        prog.ops.remove(i);
+                    }
+                    1 if !movable.is_empty() && prog.ops.len() < 100 => {
+                        let i = movable[r.below(movable.len())];
+                        let o = prog.ops[i].clone();
+                        prog.ops.insert(i, o);
+                    }
+                    2 if !movable.is_empty() => {
+                        let i = movable[r.below(movable.len())];
+                        prog.ops[i] = random_op(&mut r, sender_side);
+                    }
+                    _ if prog.ops.len() < 100 => {
+                        // insert before the first op that must stay last-ish (Drain / JoinAll)
+                        let limit = prog
+                            .ops
+                            .iter()
+                            .position(|o| matches!(o, Op::JoinAll | Op::ProbeQuiescent))
+                            .unwrap_or(prog.ops.len());
+                        let at = r.below(limit + 1);
+                        let op = random_op(&mut r, sender_side);
+                        prog.ops.insert(at, op);
+                    }
+                    _ => {}
+                }
+            }
+            5..=8 => {
+                let b = &mut sc.sched.bytes;
+                match r.below(5) {
+                    0 if !b.is_empty() => {
+                        let i = r.below(b.len());
+                        b[i] = r.next() as u8;
+                    }
+                    1 if b.len() < 4000 => {
+                        let i = r.below(b.len() + 1);
+                        b.insert(i, r.next() as u8);
+                    }
+                    2 if !b.is_empty() => {
+                        let i = r.below(b.len());
+                        b.remove(i);
+                    }
+                    3 if !b.is_empty() => {
+                        let i = r.below(b.len());
+                        b[i] = 0;
+                    }
+                    _ => {
+                        sc.sched.policy = match r.below(4) {
+                            0 => Policy::Walk { stay: [127u8, 223, 247][r.below(3)], target: None, stay_target: 127 },
+                            1 => Policy::Walk { stay: 247, target: Some(r.below(28) as u8), stay_target: 100 },
+                            2 => Policy::Walk { stay: 239, target: Some(crate::rt::TARGET_PAYLOAD), stay_target: 40 },
+                            _ => Policy::Pct {
+                                prio: (0..crate::rt::MAX_THREADS).map(|_| r.next() as u8).collect(),
+                                change: (0..(1 + r.below(4))).map(|_| r.below(600) as u32).collect(),
+                            },
+                        };
+                    }
+                }
+            }
+            9 => sc.q.cap = r.below(10) as u8,
+            10 => {
+                sc.q.wait = [
+                    WaitKind::Busy,
+                    WaitKind::Yield(0, 0),
+                    WaitKind::Yield(1, 1),
+                    WaitKind::Block(0, 0),
+                    WaitKind::Block(1, 1),
+                    WaitKind::Block(2, 0),
+                ][r.below(6)];
+                if sc.q.flavour == crate::handles::Flavour::Broadcast {
+                    sc.q.fut_spins = [Some((0, 0)), Some((1, 1)), Some((2, 0))][r.below(3)];
+                }
+            }
+            _ => sc.opts.weak_cas = !sc.opts.weak_cas,
+        }
+    }
 }
